@@ -28,6 +28,7 @@ func phasesFor(prop string) []phaseDef {
 			}},
 			{"large", "plain", 400, 8000, func(r *Rng, i int) []*Scenario { return genStreamLarge(r, "C01", "large", 0.2, 0.1) }},
 			{"trunc-enum", "plain", 400, 6000, func(r *Rng, i int) []*Scenario { return genEnumK(r, "C01", "trunc-enum", "early-eof") }},
+			{"part-enum", "plain", 1000, 20000, func(r *Rng, i int) []*Scenario { return genEnumPartitions(r, "C01", "part-enum") }},
 		}
 	case "C08":
 		return []phaseDef{
@@ -37,6 +38,7 @@ func phasesFor(prop string) []phaseDef {
 			{"B-knob", "knob", 100000, 600000, func(r *Rng, i int) []*Scenario { return genStream(r, "C08", "B-knob", true, 0.25, 0.75) }},
 			{"large", "plain", 500, 10000, func(r *Rng, i int) []*Scenario { return genStreamLarge(r, "C08", "large", 0.15, 0.35) }},
 			{"B-enum", "knob", 400, 8000, func(r *Rng, i int) []*Scenario { return genEnumK(r, "C08", "B-enum", "error") }},
+			{"part-enum", "plain", 2500, 40000, func(r *Rng, i int) []*Scenario { return genEnumPartitions(r, "C08", "part-enum") }},
 		}
 	case "C04":
 		return []phaseDef{
@@ -276,6 +278,65 @@ func genEnumK(r *Rng, prop, phase, kind string) []*Scenario {
 			}
 			out = append(out, &Scenario{Property: prop, Phase: phase, Doc: doc, Reader: &rs2})
 		}
+	}
+	return out
+}
+
+// tinyAlphabet: every byte class the block parser, the line splitter and the
+// NUL padding distinguish, plus the openers of multi-line constructs.
+var tinyAlphabet = []string{"\n", "\n", "\r", "\r", "\r\n", "\x00", "\x00", " ", " ", "\t", "a", "b", "-", ">", "#", "`", "~", "[", "]", ":", "(", ")", "<", "*", "_", "=", "1", ".", "\\", "\xc3\xa9", "\xe2\x82\xac", "\xff", "\x0c", "[a]: /u\n", "- ", "> ", "```\n", "    "}
+
+// genEnumPartitions: one tiny document (<= 11 bytes) and EVERY partition of it
+// into reads (2^(n-1) of them), alternating the terminal style; for a sample
+// of the partitions additionally an empty read before every data read.
+func genEnumPartitions(r *Rng, prop, phase string) []*Scenario {
+	var doc []byte
+	if r.Chance(0.3) {
+		loadCorpus()
+		d := corpus[r.Intn(len(corpus))].Data
+		if len(d) > 0 {
+			at := r.Intn(len(d))
+			doc = append(doc, d[at:minInt(len(d), at+r.Range(4, 11))]...)
+			if r.Chance(0.5) {
+				doc = lineEndings(r, doc)
+			}
+		}
+	} else {
+		for n := r.Range(3, 9); n > 0 && len(doc) < 11; n-- {
+			doc = append(doc, r.Pick(tinyAlphabet)...)
+		}
+	}
+	if len(doc) > 11 {
+		doc = doc[:11]
+	}
+	n := len(doc)
+	var out []*Scenario
+	if n == 0 {
+		return out
+	}
+	for mask := 0; mask < 1<<uint(n-1); mask++ {
+		var ops []int
+		prev := 0
+		for i := 1; i < n; i++ {
+			if mask&(1<<uint(i-1)) != 0 {
+				ops = append(ops, i-prev)
+				prev = i
+			}
+		}
+		ops = append(ops, n-prev)
+		rs := &ReaderScn{Ops: ops, Terminal: []string{"separate", "with-data"}[(mask^mask>>3)&1], ExtraCalls: 1 + mask%2, Family: "partition"}
+		rs.Fault.Kind = "none"
+		if mask%5 == 2 {
+			var withEmpty []int
+			for _, o := range ops {
+				withEmpty = append(withEmpty, 0, o)
+			}
+			rs.Ops = withEmpty
+		}
+		if mask%7 == 3 {
+			rs.Scribble = scribbleKinds[(mask/7)%len(scribbleKinds)]
+		}
+		out = append(out, &Scenario{Property: prop, Phase: phase, Doc: doc, Reader: rs})
 	}
 	return out
 }
